@@ -106,7 +106,7 @@ end
 def numSteps (mn mx step : Int) : Int := ((mx - mn) * 1000000000 + step) / (step * 1000000000)
 
 /-- a profile point is printed iff it lies in the window and on the lattice `window_min + k·delta`
-    (all in thousandths; `delta` in thousandths, a multiple of 10 after rounding to two decimals) -/
+    (all in thousandths, as the code rounds the pH, the bounds and the step to three decimals) -/
 def windowRow (wmin wmax start delta ph : Int) : Bool :=
   decide (wmin ≤ ph) && decide (ph ≤ wmax) && decide (delta ≠ 0) && decide ((ph - start) % delta = 0)
 
